@@ -162,6 +162,22 @@ func analyseResolver(c *core.Ctx, fn *ssa.Function, rules map[string]bool) {
 				}
 				return absint.Const{}, true
 			}
+			// a one-element literal Elements{{Name: e.Name, Value: e.Value}}
+			if t, ok := list.(*absint.Term); ok && t.Op == "slice" && len(t.Args) > 0 {
+				if p, ok := t.Args[0].(absint.Ptr); ok {
+					nm, hasN := s.Heap[p.Loc+"[c:0]·Name"]
+					vl, hasV := s.Heap[p.Loc+"[c:0]·Value"]
+					_, more := s.Heap[p.Loc+"[c:1]·Name"]
+					if hasN && hasV && !more {
+						listCells[rp.Loc] = true
+						one := intConst(mult) == 1 || mult.Key() == "c:1"
+						if !one || !valueOfSame(x, nm, vl) {
+							report("C01-R5", "pass-through", site.Pos(), "an undefined name must stand for itself: expected a merge of the single element {e.Name, e.Value} with coefficient 1, found {%s, %s} x %s", nm.Key(), vl.Key(), mult.Key())
+						}
+						return absint.Const{}, true
+					}
+				}
+			}
 			report("C01-R5", "merge-source", site.Pos(), "merge of %s: neither a looked-up recipe's element list nor a single pass-through element", list.Key())
 			return absint.Const{}, true
 		case isMethod(callee, core.LibPath, "Elements", "Add") && len(args) == 3:
